@@ -460,7 +460,7 @@ var recHist = ev.New(prop, "histories",
 	Require("two-part+released", "close-frame", "conn-close", "transport-failure", "client", "server")
 
 func TestHistories(t *testing.T) {
-	ev.Rapid(t, "histories", 1200, 40000, func(t *rapid.T) {
+	ev.Rapid(t, "histories", 1200, 300000, func(t *rapid.T) {
 		c := genCase(t)
 		ev.Current(prop, "histories", c)
 		var st stats
